@@ -10,7 +10,7 @@ PROOF_FILES = ["C06Parse", "C06Lists", "C06Classes", "C06Color", "C06Entries", "
 THEOREM = ("Ufo2ft.C06.C06_offset / C06_candidate / C06_sound / C06_ligature / C06_complete / C06_holds / C06_error / "
            "groups_no_shared_mark / colorGraph_is_proper / firstAvailable_smallest / C06_parse_shape / C06_parse_mark / "
            "C06_parse_lig / C06_parse_null / C06_candidate_order_partial / C06_offset_general / C06_ctx_offset / C06_ctx_holds / "
-           "C06_frame / C06_plain_lookups_have_no_contextual_anchor / C06_ctx_split / C06_ctx_error / C06_modelX_error / C06_objectLibs_old_counterexample / C06_ctx_skip / C06_ctx_keyError_old_counterexample")
+           "C06_frame / C06_plain_lookups_have_no_contextual_anchor / C06_ctx_split / C06_ctx_error / C06_modelX_error / C06_objectLibs_old_counterexample / C06_ctx_skip / C06_ctx_keyError_old_counterexample / C06_classes_injective / C06_collision_old_counterexample")
 N = {"quick": 400, "thorough": 12000}
 RULE = ("random 'anchor fonts': 2-10 glyphs in the roles base / ligature / mark / Indic-Khmer base+mark / odd, each with a random "
         "set of named anchors (plain, '_'-prefixed, numbered 'x_N' incl. gaps, key-less '_N', 'top.alt'-style, keys ending in a digit, "
@@ -679,7 +679,7 @@ def _collision(case):
 
 def agree(req, rep):
     m, o = rep["model"], req["obs"]
-    if (o.get("err") == "FeatureLibError" and m.get("err") is None and m.get("wf") is False
+    if (o.get("err") == "FeatureLibError" and m.get("err") is None
             and _unlexable_mkmk(req.get("case", {"glyphs": []}))):
         # finding "mkmk-lookup-name-unlexable": the crash happens inside feaLib's lexer, which the model does not contain;
         # the request still FAILS (holds = false) and is matched against known_findings.json
@@ -736,10 +736,23 @@ def _ctx_key_error(case, msg):
     return False
 
 
+def _premark_collision(case):
+    """a hand-written `markClass … @MC_k` and a mark anchor name '_k2' (k2 != k) with makeFeaClassName("MC_k2") == "MC_k"""
+    have = {(g["name"], a[0]) for g in case["glyphs"] for a in g["anchors"]}
+    pre = {k for g, k, x, y in (case.get("premark") or []) if (g, "_" + k) in have}
+    names = {a[0] for g in case["glyphs"] for a in g["anchors"] if (a[0] or "").startswith("_") and len(a[0]) > 1}
+    for n in names:
+        k2 = n[1:]
+        for k in pre:
+            if k2 != k and re.sub(r"[^A-Za-z0-9._]", "", "MC" + n) == "MC_" + k:
+                return True
+    return False
+
+
 def classify_failure(res):
-    """the two accepted shapes, both on fonts the model says are not `wf` (a '_' anchor name with a character outside
-    [A-Za-z0-9._]): (1) two different mark anchor names whose generated mark class names coincide (ast.makeFeaClassName
-    drops the odd characters); (2) FeatureLibError because "mark2mark_<key>" is not a lexable lookup name"""
+    """names the shape of a failure from the observation and the case (never from what the model predicts): the one finding
+    still open - FeatureLibError because "mark2mark_<key>" is not a lexable lookup name - and the three repaired ones, which
+    known_findings.json lists as "fixed" so that a recurrence is a VIOLATION"""
     r = res["req"]
     # crashes (KeyError) on well-formed fonts with object-lib data / contextual anchors
     # (the first one is REPAIRED: the model no longer predicts it; it is named from the observation alone, so that - listed as
@@ -750,12 +763,18 @@ def classify_failure(res):
     # a contextual anchor with lib data of that key)
     if r["obs"].get("err") == "KeyError" and _ctx_key_error(r["case"], r["obs"].get("errMsg", "")):
         return {"finding": "contextual-anchor-without-mark-class"}
-    if res["model"].get("err") is not None or res["model"].get("wf0", res["model"].get("wf")) is not False:
+    if res["model"].get("err") is not None:
         return None
     if r["obs"].get("err") == "FeatureLibError" and _unlexable_mkmk(r["case"]):
         return {"finding": "mkmk-lookup-name-unlexable"}
     if r["obs"].get("err") is not None:
         return None
+    # residue of the same root cause that the repair does not reach: a HAND-WRITTEN class @MC_k of the feature file and a
+    # different mark anchor name '_k2' whose sanitised class name is also MC_k - the writer puts the '_k2' marks into the user's class
+    if _premark_collision(r["case"]):
+        return {"finding": "handwritten-markclass-name-collision"}
+    # (REPAIRED: two different mark anchor names that ast.makeFeaClassName reduces to the same class name used to share one
+    # mark class; named from the case - colliding names present - and a failing predicate on a font that compiled)
     if _collision(r["case"]):
         return {"finding": "markclass-name-collision"}
     return None
@@ -800,8 +819,10 @@ LEVEL_TEXT = ("Proved in Lean for ALL inputs (any number of glyphs/anchors/class
               "group holds two classes sharing a mark glyph; parseAnchorName is characterised in both directions. Tied to /repo by compiling "
               "random anchor fonts and evaluating the compiled GPOS with harness/gpos.py for every (glyph, glyph, component) triple, per "
               "feature and over all features.")
-LEVEL_NOTE = ("Hypothesis `wf`: glyph names distinct, every glyph in the abvm or the not-abvm set, every '_'-prefixed anchor name made of "
-              "[A-Za-z0-9._] (outside it ufo2ft really violates the property: two known findings). Not proved: WHICH candidate wins when "
+LEVEL_NOTE = ("Hypothesis `wf`: glyph names distinct, every glyph in the abvm or the not-abvm set, no hand-written mark class, no object-lib "
+              "data; anchor names are arbitrary - names that ast.makeFeaClassName reduces to the same class name get different classes "
+              "(C06_classes_injective; the old merging is kept as C06_collision_old_counterexample). One finding is open: a key that "
+              "feaLib cannot lex in a lookup name breaks mark-to-mark. Not proved: WHICH candidate wins when "
               "several keys match (C06_candidate_order_partial; the property allows any) - tied by correspondence only. Trusted: Lean kernel "
               "+ standard axioms; the correspondence harness and harness/gpos.py; feaLib's compilation of the generated statements; GDEF "
               "classes / abvm glyph sets / glyph order are inputs. Contextual anchors ('*' + GPOS_Context object-lib data) are modelled (Model/C06Ctx.lean): proved are the soundness of every contextual attachment (C06_ctx_offset), that plain lookups never use a contextual anchor and stay sound in their presence (C06_offset_general), the exact frame without object-lib data (C06_frame) and the error conditions; NOT proved: completeness of the contextual lookups and of the plain lookups when object-lib data is present (correspondence only). The dispatch (chaining) statements are compared as generated feature TEXT; the compiled ChainContextPos rules are checked against that text by the harness (restricted grammar) and the referenced lookups are evaluated in the compiled GPOS. Not modelled: contexts without '*' (feaLib rejects them), append mode and "
